@@ -167,3 +167,11 @@ TEXT["C12"].update(engine="verus+kani",
           "Thorough tier only, undecided when CBMC times out: whole-frame length/checksum harnesses.",
     note="NOT decided: the fixed 236-octet header part of Dhcp::serialise (serialise_fixed padding/truncation against parse's null_terminated), Ethernet/IPv4/UDP frame assembly beyond the checksum primitives (Kani times out on the Vec/Box frame builders; not yet in Verus). "
          "Assumed: the encoder's HashMap view m@ and the decoder's abstract table opts_view describe the same table; Serialise for u8 pushes the octet; slice::chunks. Defect D12b (length octet wrap for values over 255 octets) found here and fixed (649d304).")
+
+TEXT["C08"].update(engine="verus+kani",
+    technique="Verus postconditions on the real Acl::check / check_authenticated / require_permission against a first-match specification (iterator adapters any/find_map desugared by R17d/R17e), "
+              "emission-point preconditions (ghost permission tokens, R19) on R9 slices of the three HTTP endpoint arms of serve_request and on DnsAclHandler::handle_query; Kani complete harnesses for prefix containment",
+    level="Unbounded deductive proof for every rule list and client: require_permission returns Ok exactly when the first rule whose conditions hold (some written subnet contains the address, unix-ness as required) exists and has the permission; "
+          "no matching rule => NotAuthenticated; first matching rule lacks it => NotAuthorised. The welcome page, /metrics, /api/v1/leases.json and everything behind the DNS ACL handler (routing, cache, forwarding) can only be reached with the matching permission granted; a refused HTTP client gets the 403 response, a refused DNS client RefusedByAcl. "
+          "Complete (Kani): Prefix4/Prefix6::contains <=> the top min(len,W) bits agree with the written prefix, for all addresses and lengths, including IPv4-mapped clients and ::ffff:a.b.c.d/len prefixes.",
+    note="Assumed: dispatch of Prefix::contains over the address families and NetAddr accessors (opaque); lock acquisition as plain read; hyper's routing of method/path to an arm. v6 prefixlen <= 128 established by the loader fix c95f480.")
